@@ -53,6 +53,7 @@ type Frame struct {
 	locals   map[string][]localDef
 	callSites map[ssa.Instruction]int
 	vacDone  map[int]bool
+	loops    []*loopCtx
 }
 
 const maxInlineDepth = 6
@@ -178,19 +179,7 @@ func (s *Session) execBody(fr *Frame, st *State) ([]Val, *State) {
 		fr.vals[p] = fr.params[i]
 	}
 	order := rpo(fn)
-	for _, b := range order {
-		fr.curBlock = b
-		var bst *State
-		if b.Index == 0 {
-			bst = st
-		} else {
-			bst = s.enterBlock(fr, b)
-			if bst == nil {
-				continue // unreachable
-			}
-		}
-		s.runBlock(fr, b, bst)
-	}
+	s.runBlocks(fr, order, st)
 	if len(fr.rets) == 0 {
 		return nil, nil
 	}
@@ -211,6 +200,259 @@ func (s *Session) execBody(fr *Frame, st *State) ([]Val, *State) {
 		res[k] = s.mergeVals(conds, vs)
 	}
 	return res, out
+}
+
+// runBlocks executes the given blocks (in reverse post-order). Loops whose trip count is statically known
+// (range over a slice of known small length) are unrolled completely; all other loops are cut at their header.
+func (s *Session) runBlocks(fr *Frame, order []*ssa.BasicBlock, st *State) {
+	done := map[*ssa.BasicBlock]bool{}
+	for _, b := range order {
+		if done[b] {
+			continue
+		}
+		fr.curBlock = b
+		if n, ok := s.knownTripCount(fr, b); ok {
+			lb := loopBlocks(b)
+			s.unrollLoop(fr, b, lb, n, order)
+			for x := range lb {
+				done[x] = true
+			}
+			continue
+		}
+		var bst *State
+		if b.Index == 0 && st != nil {
+			bst = st
+		} else {
+			bst = s.enterBlock(fr, b)
+			if bst == nil {
+				continue // unreachable
+			}
+		}
+		s.runBlock(fr, b, bst)
+	}
+}
+
+const maxUnroll = 8
+
+// knownTripCount recognises `for i := range x` over a slice whose length is a numeral <= maxUnroll.
+func (s *Session) knownTripCount(fr *Frame, h *ssa.BasicBlock) (int, bool) {
+	hasBack := false
+	for _, p := range h.Preds {
+		if isBackEdge(p, h) {
+			hasBack = true
+		}
+	}
+	if !hasBack {
+		return 0, false
+	}
+	if fr.top && fr.contract != nil && len(fr.contract.Loops[fr.loopOrd[h]]) > 0 {
+		return 0, false // an invariant was given: use it
+	}
+	for _, in := range h.Instrs {
+		ph, ok := in.(*ssa.Phi)
+		if !ok {
+			break
+		}
+		if ph.Comment != "rangeindex" {
+			continue
+		}
+		for _, in2 := range h.Instrs {
+			cmp, ok := in2.(*ssa.BinOp)
+			if !ok || cmp.Op != token.LSS {
+				continue
+			}
+			add, ok := cmp.X.(*ssa.BinOp)
+			if !ok || add.Op != token.ADD || add.X != ssa.Value(ph) {
+				continue
+			}
+			if _, known := fr.vals[cmp.Y]; !known {
+				if _, isC := cmp.Y.(*ssa.Const); !isC {
+					continue
+				}
+			}
+			lim := s.valueOf(fr, cmp.Y).T0()
+			if isNumeral(lim.S) && atoi(lim.S) <= maxUnroll {
+				return atoi(lim.S), true
+			}
+		}
+	}
+	return 0, false
+}
+
+type backRec struct {
+	cond T
+	st   *State
+	phis map[*ssa.Phi]Val
+}
+type exitRec struct {
+	cond T
+	st   *State
+	snap map[ssa.Value]Val
+}
+type loopCtx struct {
+	header *ssa.BasicBlock
+	blocks map[*ssa.BasicBlock]bool
+	backs  []backRec
+	exits  map[[2]int][]exitRec
+	live   []ssa.Value // values defined inside the loop that are used outside
+}
+
+func (s *Session) unrollLoop(fr *Frame, h *ssa.BasicBlock, lb map[*ssa.BasicBlock]bool, n int, order []*ssa.BasicBlock) {
+	// blocks of the loop in RPO
+	var body []*ssa.BasicBlock
+	for _, b := range order {
+		if lb[b] {
+			body = append(body, b)
+		}
+	}
+	ctx := &loopCtx{header: h, blocks: lb, exits: map[[2]int][]exitRec{}}
+	for b := range lb {
+		for _, in := range b.Instrs {
+			v, ok := in.(ssa.Value)
+			if !ok {
+				continue
+			}
+			if refs := v.Referrers(); refs != nil {
+				for _, r := range *refs {
+					if !lb[r.Block()] {
+						ctx.live = append(ctx.live, v)
+						break
+					}
+				}
+			}
+		}
+	}
+	// entry
+	var conds []T
+	var sts []*State
+	var predIdx []int
+	for i, p := range h.Preds {
+		if isBackEdge(p, h) {
+			continue
+		}
+		if e := fr.edges[[2]int{p.Index, h.Index}]; e != nil {
+			conds = append(conds, e.cond)
+			sts = append(sts, e.st)
+			predIdx = append(predIdx, i)
+		}
+	}
+	if len(sts) == 0 {
+		return
+	}
+	var phis []*ssa.Phi
+	for _, in := range h.Instrs {
+		if ph, ok := in.(*ssa.Phi); ok {
+			phis = append(phis, ph)
+		} else {
+			break
+		}
+	}
+	cur := s.mergeStates(conds, sts)
+	phiVals := map[*ssa.Phi]Val{}
+	for _, ph := range phis {
+		vs := make([]Val, len(predIdx))
+		for k, pi := range predIdx {
+			vs[k] = s.valueOf(fr, ph.Edges[pi])
+		}
+		phiVals[ph] = s.mergeVals(conds, vs)
+	}
+	saved := fr.loops
+	fr.loops = append(fr.loops, ctx)
+	for iter := 0; iter <= n; iter++ {
+		ctx.backs = nil
+		// forget intra-loop edges of the previous iteration
+		for k := range fr.edges {
+			if lb[fr.fn.Blocks[k[0]]] && lb[fr.fn.Blocks[k[1]]] {
+				delete(fr.edges, k)
+			}
+		}
+		for _, ph := range phis {
+			fr.vals[ph] = phiVals[ph]
+		}
+		inner := map[*ssa.BasicBlock]bool{}
+		for _, b := range body {
+			if inner[b] {
+				continue
+			}
+			fr.curBlock = b
+			if b == h {
+				s.runBlock(fr, b, cur.clone())
+				continue
+			}
+			if m, ok := s.knownTripCount(fr, b); ok {
+				ilb := loopBlocks(b)
+				s.unrollLoop(fr, b, ilb, m, body)
+				for x := range ilb {
+					inner[x] = true
+				}
+				continue
+			}
+			bst := s.enterBlock(fr, b)
+			if bst == nil {
+				continue
+			}
+			s.runBlock(fr, b, bst)
+		}
+		if len(ctx.backs) == 0 {
+			break
+		}
+		bc := make([]T, len(ctx.backs))
+		bs := make([]*State, len(ctx.backs))
+		for i, r := range ctx.backs {
+			bc[i], bs[i] = r.cond, r.st
+		}
+		if iter == n {
+			// unwinding assertion: no further iteration is possible
+			fr.nSafety["unwind"]++
+			s.addObl(&Obligation{Name: fmt.Sprintf("%s/unwind@%s#%d", fr.oblPfx, fr.fn.Name(), fr.nSafety["unwind"]), Kind: "unwind", Func: fr.oblPfx,
+				Src: fmt.Sprintf("loop over %d elements is completely unrolled", n), Guard: TTrue, Formula: Not(Or(bc...))})
+			break
+		}
+		cur = s.mergeStates(bc, bs)
+		for _, ph := range phis {
+			vs := make([]Val, len(ctx.backs))
+			for i, r := range ctx.backs {
+				vs[i] = r.phis[ph]
+			}
+			phiVals[ph] = s.mergeVals(bc, vs)
+		}
+	}
+	fr.loops = saved
+	// publish exits
+	var allConds []T
+	var allSnaps []map[ssa.Value]Val
+	keys := make([][2]int, 0, len(ctx.exits))
+	for k := range ctx.exits {
+		keys = append(keys, k)
+	}
+	sort.Slice(keys, func(i, j int) bool { return keys[i][0] < keys[j][0] || (keys[i][0] == keys[j][0] && keys[i][1] < keys[j][1]) })
+	for _, k := range keys {
+		recs := ctx.exits[k]
+		cs := make([]T, len(recs))
+		ss := make([]*State, len(recs))
+		for i, r := range recs {
+			cs[i], ss[i] = r.cond, r.st
+			allConds = append(allConds, r.cond)
+			allSnaps = append(allSnaps, r.snap)
+		}
+		m := s.mergeStates(cs, ss)
+		s.setEdge(fr, fr.fn.Blocks[k[0]], fr.fn.Blocks[k[1]], m.Reach, m, 0)
+	}
+	if len(allConds) > 0 {
+		for _, v := range ctx.live {
+			vs := make([]Val, 0, len(allSnaps))
+			cs := make([]T, 0, len(allSnaps))
+			for i, sn := range allSnaps {
+				if x, ok := sn[v]; ok {
+					vs = append(vs, x)
+					cs = append(cs, allConds[i])
+				}
+			}
+			if len(vs) > 0 {
+				fr.vals[v] = s.mergeVals(cs, vs)
+			}
+		}
+	}
 }
 
 func (s *Session) enterBlock(fr *Frame, b *ssa.BasicBlock) *State {
@@ -400,6 +642,41 @@ func (s *Session) runBlock(fr *Frame, b *ssa.BasicBlock, st *State) {
 }
 
 func (s *Session) setEdge(fr *Frame, from, to *ssa.BasicBlock, cond T, st *State, succIdx int) {
+	if n := len(fr.loops); n > 0 {
+		ctx := fr.loops[n-1]
+		if ctx.blocks[from] && to == ctx.header {
+			// back edge of a loop being unrolled
+			rec := backRec{cond: s.define("back", cond), st: st.clone(), phis: map[*ssa.Phi]Val{}}
+			predIdx := -1
+			for i, p := range to.Preds {
+				if p == from {
+					predIdx = i
+				}
+			}
+			for _, in := range to.Instrs {
+				ph, ok := in.(*ssa.Phi)
+				if !ok {
+					break
+				}
+				rec.phis[ph] = s.valueOf(fr, ph.Edges[predIdx])
+			}
+			rec.st.Reach = rec.cond
+			ctx.backs = append(ctx.backs, rec)
+			return
+		}
+		if ctx.blocks[from] && !ctx.blocks[to] {
+			rec := exitRec{cond: s.define("exit", cond), st: st.clone(), snap: map[ssa.Value]Val{}}
+			rec.st.Reach = rec.cond
+			for _, v := range ctx.live {
+				if x, ok := fr.vals[v]; ok {
+					rec.snap[v] = x
+				}
+			}
+			k := [2]int{from.Index, to.Index}
+			ctx.exits[k] = append(ctx.exits[k], rec)
+			return
+		}
+	}
 	if isBackEdge(from, to) {
 		// inv:step obligations
 		ord := fr.loopOrd[to]
